@@ -887,8 +887,10 @@ pub fn eval_condition(value: &str, context: &impl ContextView) -> Result<bool> {
                 "Expected closing '{EXPR_END}': '{value}'"
             )))?;
     }
-    eval_str(value, context)?
-        .parse::<f32>()
+    // test the computed value itself: going through its 3-decimal rendering would
+    // turn small non-zero results (e.g. -0.0003) into zero
+    evaluate(tokenize(value)?, context)?
+        .one_number()
         .map(|v| v != 0.)
         .map_err(|_| SvgdxError::ParseError(format!("Invalid condition: '{value}'")))
 }
